@@ -3,17 +3,20 @@
 NAME=$1; TIER=${2:-quick}
 HERE="$(cd "$(dirname "$0")/.." && pwd)"
 PROP=${NAME%%_*}
-if ! git -C /repo diff --quiet; then echo "/repo has uncommitted changes"; exit 9; fi
-git -C /repo apply $HERE/seeded/$NAME/patch.diff || exit 9
-cd $HERE && VERIF_EVIDENCE_DIR=/tmp/seedcheck_ev_$$ ./check $PROP $TIER > /tmp/seedcheck_$$.log 2>&1; RC=$?
-git -C /repo checkout -- .
+# the patch is applied to a scratch worktree of /repo HEAD (equivalent to: git -C /repo apply <patch>; ./check ...; git -C /repo checkout -- .
+# but /repo itself stays untouched, so several seed checks and a test-suite run can go on at the same time)
+WT=/tmp/seedcheck_wt_$$
+git -C /repo worktree add -q $WT HEAD || exit 9
+git -C $WT apply $HERE/seeded/$NAME/patch.diff || { git -C /repo worktree remove --force $WT; exit 9; }
+cd $HERE && VERIF_EVIDENCE_DIR=/tmp/seedcheck_ev_$$ PYTHONPATH=$WT/src:$WT ./check $PROP $TIER > /tmp/seedcheck_$$.log 2>&1; RC=$?
+git -C /repo worktree remove --force $WT
 grep -E "VIOLATION|HARNESS-ERROR|$TIER:" /tmp/seedcheck_$$.log | cut -c1-200
 python3 - <<PY
 import json,re
 p='$HERE/seeded/$NAME/meta.json'; m=json.load(open(p))
 log=open('/tmp/seedcheck_$$.log').read()
 viol=sorted(set(re.findall(r'obligation=(\S+) label=(\S+)',log)))
-m.setdefault('checks_run',{})['$TIER']={'cmd':'git -C /repo apply seeded/$NAME/patch.diff; ./check $PROP $TIER; git -C /repo checkout -- .','exit':$RC,
+m.setdefault('checks_run',{})['$TIER']={'cmd':'scratch worktree of /repo HEAD + git apply seeded/$NAME/patch.diff; PYTHONPATH=<wt>/src:<wt> ./check $PROP $TIER','exit':$RC,
    'caught': $RC==1, 'violations':[{'obligation':o,'label':l} for o,l in viol][:12]}
 json.dump(m,open(p,'w'),indent=1)
 PY
